@@ -627,6 +627,17 @@ def _shape_aliased(ex, st):
     return _stmt_around(ex, st, [_ident(ex, st, 'xident', [n_]), w1, _ident(ex, st, 'yident', [a_])], gh)
 
 
+def _shape_aliased2(ex, st):
+    """name ws ws alias , name2 ws alias2  (two whitespace tokens in front of the first alias, no blank behind the comma)"""
+    from contracts.sql import _mk_leaf, _ws1
+    n1, a1, n2, a2 = _name(ex, st, 'name1'), _name(ex, st, 'alias1'), _name(ex, st, 'name2'), _name(ex, st, 'alias2')
+    w1, w1b, w2 = _ws1(ex, st, 'ws1'), _ws1(ex, st, 'ws1b'), _ws1(ex, st, 'ws2')
+    c1 = _mk_leaf(ex, st, None, 'comma1', (ex.W.T.Punctuation,), value=',')
+    gh = {'N1': n1, 'A1': a1, 'N2': n2, 'A2': a2, 'W1': w1, 'W1B': w1b, 'W2': w2, 'C1': c1}
+    return _stmt_around(ex, st, [_ident(ex, st, 'x1', [n1]), w1, w1b, _ident(ex, st, 'y1', [a1]), c1,
+                                 _ident(ex, st, 'x2', [n2]), w2, _ident(ex, st, 'y2', [a2])], gh)
+
+
 def _shape_idlist(ex, st):
     from contracts.sql import _mk_leaf, _ws1
     n1, n2, n3 = _name(ex, st, 'n1'), _name(ex, st, 'n2'), _name(ex, st, 'n3')
@@ -669,6 +680,12 @@ for _pass, _mk, _what, _ens in (
       'tlist.tokens[2].tokens[0] is N', 'tlist.tokens[2].tokens[1] is W1',
       'isinstance(tlist.tokens[2].tokens[2], sql.Identifier)', 'tlist.tokens[2].tokens[2].tokens[0] is A',
       'tlist.tokens[4] is FROM']),
+    ('group_aliased', _shape_aliased2, 'name <two whitespace tokens> alias,name alias',
+     ['len(tlist.tokens) == 9', 'isinstance(tlist.tokens[2], sql.Identifier)', 'len(tlist.tokens[2].tokens) == 4',
+      'tlist.tokens[2].tokens[0] is N1', 'tlist.tokens[2].tokens[1] is W1', 'tlist.tokens[2].tokens[2] is W1B',
+      'tlist.tokens[2].tokens[3].tokens[0] is A1', 'tlist.tokens[3] is C1',
+      'isinstance(tlist.tokens[4], sql.Identifier)', 'len(tlist.tokens[4].tokens) == 3', 'tlist.tokens[4].tokens[0] is N2',
+      'tlist.tokens[4].tokens[1] is W2', 'tlist.tokens[4].tokens[2].tokens[0] is A2', 'tlist.tokens[6] is FROM']),
     ('group_identifier_list', _shape_idlist, 'a, b, c',
      ['len(tlist.tokens) == 7', 'isinstance(tlist.tokens[2], sql.IdentifierList)', 'len(tlist.tokens[2].tokens) == 7',
       'tlist.tokens[2].tokens[0].tokens[0] is N1', 'tlist.tokens[2].tokens[1] is C1',
@@ -869,6 +886,24 @@ def _shape_function(ex, st):
     return node
 
 
+def _shape_function_ws(ex, st):
+    """f <whitespace> ( arg ): a call written with a blank or a line break in front of the parenthesis"""
+    from contracts.sql import _mk_leaf, _mk_node, _mk_argument, _ws1
+    T, sql = ex.W.T, ex.W.sql
+    fn = _mk_leaf(ex, st, None, 'fname', (T.Name,), name_leaf=True)
+    lp = _mk_leaf(ex, st, None, 'lp', (T.Punctuation,), value='(')
+    rp = _mk_leaf(ex, st, None, 'rp', (T.Punctuation,), value=')')
+    arg = _mk_argument(ex, st, 'arg')
+    w = _ws1(ex, st, 'wsf')
+    par = lambda g: _mk_node(ex, st, sql.Parenthesis, 'paren', [lp, arg, rp], g)   # noqa: E731
+    node = _stmt_around(ex, st, [fn, w, par], {'F': fn, 'ARG': arg, 'WF': w})
+    for o in list(st.objs.values()):
+        val = o.get('value')
+        if isinstance(val, SStr) and not z3.is_string_value(val.z):
+            st.assume(z3.And(ex.W.upper(val.z) != z3.StringVal('CREATE'), ex.W.upper(val.z) != z3.StringVal('TABLE')))
+    return node
+
+
 def _shape_comparison(ex, st):
     from contracts.sql import _mk_leaf, _ws1
     T = ex.W.T
@@ -894,6 +929,10 @@ for _pass, _mk, _what, _ens in (
      ['len(tlist.tokens) == 7', 'isinstance(tlist.tokens[2], sql.Function)', 'len(tlist.tokens[2].tokens) == 2',
       'tlist.tokens[2].tokens[0] is F', 'isinstance(tlist.tokens[2].tokens[1], sql.Parenthesis)',
       'tlist.tokens[2].tokens[1].tokens[1] is ARG', 'tlist.tokens[4] is FROM']),
+    ('group_functions', _shape_function_ws, 'f <whitespace> ( arg )',
+     ['len(tlist.tokens) == 7', 'isinstance(tlist.tokens[2], sql.Function)', 'len(tlist.tokens[2].tokens) == 3',
+      'tlist.tokens[2].tokens[0] is F', 'tlist.tokens[2].tokens[1] is WF', 'isinstance(tlist.tokens[2].tokens[2], sql.Parenthesis)',
+      'tlist.tokens[2].tokens[2].tokens[1] is ARG', 'tlist.tokens[4] is FROM']),
     ('group_comparison', _shape_comparison, 'a <op> literal',
      ['len(tlist.tokens) == 7', 'isinstance(tlist.tokens[2], sql.Comparison)', 'len(tlist.tokens[2].tokens) == 5',
       'tlist.tokens[2].tokens[0].tokens[0] is L', 'tlist.tokens[2].tokens[2] is OP', 'tlist.tokens[2].tokens[4] is R',
